@@ -135,6 +135,23 @@ def route_grammars(R):
         return deep_plain() + [R.Rule('Space', R.Regex(r'\s+'), ignored=True)]
     G.append(('deep-nesting-literals-ignore', deep_literals_ignore, {}))
 
+    def deep_threshold():
+        # one rule per nesting depth, so that every position of the block-budget threshold is
+        # crossed: two sibling elements that are both split out of one enclosing function
+        rules = []
+        for d in range(4, 30):
+            e = R.Seq(R.Seq(R.Str('a'), R.Str('b')), R.Seq(R.Str('c'), R.Str('d')))
+            for i in range(d):
+                e = R.Seq(e)
+            rules.append(R.Rule(f'S{d}', e))
+        for d in range(4, 30, 3):
+            e = R.Seq(R.List(R.Left(R.Seq(R.Ref('X')), R.Str(';'))), R.Seq(R.Str('c'), R.Ref('X')))
+            for i in range(d):
+                e = R.Seq(e) if i % 2 else R.Opt(e)
+            rules.append(R.Rule(f'M{d}', e))
+        return [R.Rule('start', R.Ref('S4'))] + rules + [R.Rule('X', R.Regex('b+'))]
+    G.append(('deep-nesting-threshold', deep_threshold, {}))
+
     def let():
         return [R.Rule('start', R.Let('x', R.Ref('X'), R.Call(R.Ref('T'), [R.Ref('x')]))),
                 R.Rule('T', R.Right(R.Ref('p'), R.Str('!')), params=['p']),
@@ -1269,6 +1286,41 @@ ROUTE_PROPS = [
 ]
 
 
+def temp_allocation_unique(m, bad, stats):
+    """Every temporary the builder hands out while a module is emitted ends up in a function of its
+    own or under a name of its own: if a name was handed out k times it must be stored in at least
+    k different functions (otherwise one function hosts two allocations of one name, and the
+    later one overwrites a value the earlier one still needs - e.g. after the counters were reset
+    when code was split into a helper function)."""
+    alloc = getattr(m, 'allocations', None)
+    if alloc is None:
+        return
+    from collections import Counter
+    cnt = Counter(alloc)
+    stats['temporaries_allocated'] = stats.get('temporaries_allocated', 0) + len(alloc)
+    dup = {n: k for n, k in cnt.items() if k > 1}
+    if not dup:
+        return
+    hosts = {n: set() for n in dup}
+    hosts_module = set()
+    for node in ast.walk(m.tree):
+        if isinstance(node, (ast.FunctionDef, ast.Lambda)):
+            for x in ast.walk(node):
+                if isinstance(x, ast.Name) and isinstance(x.ctx, ast.Store) and x.id in hosts:
+                    hosts[x.id].add(getattr(node, 'name', '<lambda>'))
+    for st in m.tree.body:
+        if isinstance(st, ast.Assign):
+            for t in st.targets:
+                if isinstance(t, ast.Name) and t.id in hosts:
+                    hosts[t.id].add('<module>')
+    for n, k in sorted(dup.items()):
+        if k > len(hosts[n]):
+            bad('SPILL-temp-unique', f'{m.label}: the builder handed out the temporary `{n}` {k} times but it is '
+                                     f'stored in only {len(hosts[n])} function(s) ({sorted(hosts[n])[:3]}): one '
+                                     f'function hosts two allocations of the same name, the later overwrites the '
+                                     f'earlier (temporaries must stay unique within a function)')
+
+
 def route_failures(pid, rep):
     """a route on which the translator itself raises is a finding for the properties that route serves"""
     R, mods = emitted_modules()
@@ -1299,6 +1351,7 @@ def run(rep, pid, rules, label_filter=None):
         local_shadowing(m, bad, stats)
         context_wiring(m, bad, stats)
         free_names(m, bad, stats)
+        temp_allocation_unique(m, bad, stats)
     ignore_distribution(R, bad, stats)
     start_prefix_and_ignored_rule(R, mods, bad, stats)
     route_ignored_sets(R, bad, stats)
